@@ -909,9 +909,10 @@ pub fn generate(rng: &mut Rng, opts: &GenOpts) -> Design {
         let src = g.sigref(&env);
         let src2 = g.sigref(&env);
         body.push_str(&format!("    for k in 0..{lanes} :lanes {{\n"));
-        body.push_str(&format!("        always_comb {{\n            lane_d[k] = ({src} + k) ^ ({src2} >> (k % 7));\n"));
-        body.push_str("            if k > 0 {\n");
-        body.push_str("                lane_d[k] = lane_d[k] + lane_q[k - 1];\n            }\n        }\n");
+        body.push_str(&format!(
+            "        always_comb {{\n            lane_d[k] = (({src} + k) ^ ({src2} >> (k % 7))) + lane_q[(k + {}) % {lanes}];\n        }}\n",
+            lanes - 1
+        ));
         body.push_str("        always_ff {\n            if_reset {\n                lane_q[k] = 0;\n            } else {\n                lane_q[k] = lane_d[k];\n            }\n        }\n    }\n");
         decl.push_str(&format!("    var lane_o: logic<{w}>;\n    assign lane_o = lane_q[{}];\n", lanes - 1));
         env.push(Sig { name: "lane_o".into(), width: w, signed: false, array: None });
